@@ -1872,3 +1872,25 @@ func (fr *evalFrame) memBase(v ssa.Value) ssa.Value {
 	}
 	return v
 }
+
+// collectList makes the walker record what is put into the (one) list a function builds: PushBack appends,
+// PushFront prepends; render turns an evaluated element into its description ("?" when not evaluable).
+func (ev *evaluator) collectList(out *[]string, render func(o interface{}, ok bool) string) {
+	ev.visit = func(fr *evalFrame, call *ssa.Call) {
+		callee := call.Common().StaticCallee()
+		if callee == nil || len(call.Common().Args) != 2 {
+			return
+		}
+		front := callee.String() == "(*container/list.List).PushFront"
+		if !front && callee.String() != "(*container/list.List).PushBack" {
+			return
+		}
+		o, ok := ev.eval(fr, unwrapIface(call.Common().Args[1]), 0)
+		el := render(o, ok)
+		if front {
+			*out = append([]string{el}, *out...)
+		} else {
+			*out = append(*out, el)
+		}
+	}
+}
